@@ -22,7 +22,7 @@ hprop.install(globals(), hprop.HistoryProperty(
         "reposition instructions carry well-formed link ids",
     ],
     quick=(16, 60, 40), thorough=(16, 500, 60), probes=True,
-    instr_bias={"batches": True, "reinject": True},
+    instr_bias={"batches": True, "reinject": True, "raw": True},
 ))
 FLOORS = {"quick": {"probes": 600, "precedence_checks": 8000, "flag:competing_instructions": 40, "flag:driver_overrode_generator": 30},
           "thorough": {"probes": 15000}}
